@@ -97,7 +97,15 @@ def handler(st, opts):
             if err > TOL * scale * csum:
                 problems.append(P("law", "term differs from its normal form %s by %.3g (scale %.3g): the projector is not linear / idempotent / does not fix x" % (nf, err, scale)))
             stats["nontrivial"] = 1 if op in ("P", "lin") else 0
-        elif op in ("oracle", "oracle_upd"):
+        elif op in ("oracle", "oracle_upd", "oracle_nc"):
+            if op == "oracle_nc":
+                # the same values in column-major storage (non-contiguous cores, as returned by round / t / permute / mprod)
+                def colmajor(c):
+                    p = list(range(c.dim()))[::-1]
+                    return c.permute(p).contiguous().permute(p)
+                x = tt.TT([colmajor(c) for c in x.cores]); z = tt.TT([colmajor(c) for c in z.cores]); w = tt.TT([colmajor(c) for c in w.cores])
+                objs = [x, z, w]
+                snap = algrun.snapshot(objs)
             if op == "oracle_upd":
                 # a history on the same base-point object: project, replace the first core, project, replace the last core
                 proj(x, z)
@@ -141,11 +149,16 @@ def handler(st, opts):
                 err = torch.linalg.norm(dense(proj(x, t)) - dense(t)).item()
                 if err > 1e-8 * max(1.0, torch.linalg.norm(dense(t)).item()):
                     problems.append(P("oracle", "a tangent vector (x with core %d replaced) is not fixed by P: differs by %.3g" % (k, err)))
-            # the gradient routine agrees with the oracle as well
-            G = tt.manifold.riemannian_gradient(x, lambda X: (X * w).sum())
-            ref = Q @ (Q.T @ dense(w).reshape(-1))
-            if torch.linalg.norm(dense(G).reshape(-1) - ref).item() > 1e-8 * scale:
-                problems.append(P("oracle", "riemannian_gradient of <X, w> differs from the projection of w onto the tangent space at the current x"))
+            # the gradient routine agrees with the oracle as well (linear, quadratic and quartic f)
+            xd_ = dense(x)
+            for fname, f, gd in (("<X,w>", lambda X: (X * w).sum(), dense(w)),
+                                 ("0.5|X-z|^2", lambda X: 0.5 * ((X - z) * (X - z)).sum(), xd_ - dense(z)),
+                                 ("0.25 sum X^4", lambda X: 0.25 * (X * X * X * X).sum(), xd_ ** 3)):
+                G = tt.manifold.riemannian_gradient(x, f)
+                ref = Q @ (Q.T @ gd.reshape(-1))
+                stats["calls"] += 1
+                if torch.linalg.norm(dense(G).reshape(-1) - ref).item() > 1e-8 * max(scale, torch.linalg.norm(gd).item()):
+                    problems.append(P("oracle", "riemannian_gradient of %s differs from the projection of the dense gradient onto the tangent space at the current x" % fname))
             stats["nontrivial"] = 1
         elif op == "scalar_laws":
             Pz, Pw = proj(x, z), proj(x, w)
